@@ -67,7 +67,11 @@ MUTS = {
    [(A, "class AttrInt64(Attr[int]):\n    _attribute_proto_type = AttributeProto.INT\n",
         "class AttrInt64(Attr[int]):\n    _attribute_proto_type = AttributeProto.INT\n\n    def _validate(self):\n        if not isinstance(self._value, (int, _Ref)):\n            raise self._get_pretty_type_exception()\n        super()._validate()\n")],
  "unk_ (one underscore) prefix stripped: a user's symbolic dimension unk_1 is dropped":
-   [(S, "lambda x: x.startswith(\"unk__\")", "lambda x: x.startswith(\"unk_\")")],
+   [(S, "lambda x: x.startswith(\"unk__\") and x not in given", "lambda x: x.startswith(\"unk_\") and x not in given")],
+ "fix f580c1e reverted: the caller's own unk__* dimension names are stripped again":
+   [(S, "lambda x: x.startswith(\"unk__\") and x not in given", "lambda x: x.startswith(\"unk__\")")],
+ "given names taken from the first input only":
+   [(S, "            for var in self.inputs.get_vars().values()\n            for name in _dim_symbols(var.unwrap_type())", "            for var in list(self.inputs.get_vars().values())[:1]\n            for name in _dim_symbols(var.unwrap_type())")],
 }
 for name, edits in MUTS.items():
     if len(sys.argv) > 1 and not any(a in name for a in sys.argv[1:]): continue
